@@ -42,6 +42,77 @@ for p in props:
         'level_note': ns.get('LEVEL_NOTE', 'holds on every point of the declared lattice/bound only; numpy, astropy (units, coordinates, wcs, table, io.fits) and matplotlib are trusted; compiled kernels are checked as built'),
         'technique': ns.get('TECHNIQUE', 'bounded exhaustive enumeration (explicit-state / lattice) on the implementation with a reference-model oracle'),
     })
+
+TEXTS = {
+ 'C01': ('bounded-exhaustive lattice enumeration on the implementation (shape x size x angle x unit x centre x include x query container) with an exact-by-construction reference membership',
+         'every contains()/`in` answer of the real code on the full declared product equals the reference membership outside an explicit guard band; shape/scalar-ness of the answer checked for 9 container forms',
+         'holds on the lattice only (sizes 2^-10..2^20, 11 angles x 5 units); positions within 1e-9 relative of the boundary are excepted as the property states; pnpoly kernel as built'),
+ 'C02': ('bounded-exhaustive lattice enumeration on the implementation with a per-sub-sample reference membership',
+         'every pixel of every centre/subpixel mask (n=1..12, 51 grid phases incl. far centres) lies in the interval implied by the sure/unsure reference samples; unsupported combinations must raise NotImplementedError',
+         'lattice of sizes <= 40 px; sample positions within the guard band widen the accepted interval; kernels as built'),
+ 'C03': ('bounded-exhaustive lattice enumeration on the implementation with an independent Green-theorem area oracle',
+         'every pixel of every exact mask (and of direct kernel calls) compared with an independently computed overlap area; sums vs analytic area; convergence bound for subpixel masks',
+         'oracle self-validated against closed forms to 8e-15; 232 ellipse configurations at special alignments are genuine kernel defects listed as known findings (Cython cannot be rebuilt here)'),
+ 'C04': ('bounded-exhaustive lattice enumeration on the implementation (1/8-pixel centre lattice x sizes x angles) with independent true extents',
+         'integer box equals floor/ceil of the independently computed true extent, is minimal per side, encloses all reference members, equals the mask box in every mode; annulus = outer box, compound = union',
+         'rounding-boundary allowance of 1e-9 where trigonometry is involved'),
+ 'C05': ('exhaustive small-scope enumeration on the implementation (all box positions x box/image shapes x weights x dtypes x fills x copy x data mask) with a nested-list placement model',
+         'to_image/cutout/multiply/get_values/overlap slices equal the dictionary model of placing the mask at (ixmin, iymin); inputs bit-identical afterwards',
+         'result dtypes and view-vs-copy for copy=False are not demanded; weight-0 pixels of multiply may be 0 or the fill value'),
+ 'C06': ('bounded-exhaustive lattice enumeration on the implementation (region class x WCS family x position x include)',
+         'pixel->sky->pixel and sky->pixel->sky return the corresponding class with geometry to 1e-6 relative and identical meta/visual; sky membership equals pixel-image membership and the reference membership',
+         'astropy.wcs / astropy.coordinates trusted; configurations outside a projection domain are skipped'),
+ 'C07': ('bounded-exhaustive lattice enumeration on the implementation with an independent spherical-offset route through wcs.world_to_pixel',
+         'sky points at the angular semi-axes (astropy directional offsets) land on the boundary of the pixel image; centre, lengths and angle agree with finite-difference scale/north, independent of the helper shared by both conversion directions',
+         'tolerance 1e-6 + 2 theta^2 bounds the projection non-linearity; astropy trusted'),
+ 'C08': ('bounded-exhaustive enumeration on the implementation: all ordered pairs x operators x include flags, all expression trees to depth 2 (3 thinned), annulus lattices',
+         'membership = boolean algebra of reference operand membership; centre mask = operator on reference masks in the union box; commutes with conversion and rotation; annulus area/membership',
+         'operator form shares region1.meta by design (modelled); guard band as C01'),
+ 'C09': ('bounded-exhaustive lattice enumeration on the implementation plus fresh-interpreter runs per hash seed',
+         'serialize->parse returns one region of the same class/frame within half a unit of the precision, same text/tags/include; parse->serialize->parse fixed point; determinism across PYTHONHASHSEED 0..3; inexpressible members skipped without altering output',
+         'ellipse full axes within one unit (semi-axes are written); label and brace-containing text are outside DS9-expressible metadata'),
+ 'C10': ('explicit-state search over line programs (all sequences to depth 3, BFS over reference-interpreter states to closure) plus the full per-line grammar product, each executed on the real parser',
+         'parsed regions equal the reference reading of the DS9 conventions for every generated line and program; state (frame, global properties, composite) never leaks',
+         'supported subset as named in the property; tolerance 1e-9 (conventions errors are >= 1e-4)'),
+ 'C11': ('bounded-exhaustive lattice enumeration on the implementation plus a generated CRTF line grammar',
+         'round trip within half a unit of fmt in the written unit incl. frame change, include/type/label/meta preserved, fixed point; CASA reading rules for global/inline keys, coord=, signs, ann, ellipse axes, box forms, units required',
+         'astropy frame transformations trusted; labelcolor and text containing = are outside the demanded vocabulary'),
+ 'C12': ('bounded-exhaustive enumeration on the implementation: all lists <= 3 + windows x include x component patterns x media, hand-built tables',
+         'same classes, exact geometry, exclude flag, components kept or fresh and distinct, fixed point, skipping does not alter other rows; other accepted notations read by reference row arithmetic',
+         'polygon zero padding for mixed vertex counts is a known finding'),
+ 'C13': ('explicit-state search on the implementation: closure of the state graph of 56 operations over a fingerprinted pool, all ordered pairs (triples over I/O operations), fresh interpreters per hash seed',
+         'no operation changes any input or module-level table (bit-exact fingerprint); every result equals the initial-state result, the repeated result and the fresh-interpreter result',
+         'fingerprint covers public attributes + the module tables named in the anchors; astropy/matplotlib caches excluded'),
+ 'C14': ('exhaustive fault/environment enumeration on the real writers with filesystem snapshots',
+         'existing destination without overwrite -> OSError and byte-identical; any failing write leaves the destination untouched; every successful write reads back through every identification route as parse(serialize)',
+         'faults are those named in the property (difficult list members, bad options, unknown formats); I/O errors mid-write are out of scope'),
+ 'C15': ('bounded-exhaustive lattice enumeration on the implementation with oracle-rotated queries and exact dyadic translations',
+         'rotation preserves class/meta/area and membership (queries rotated by the oracle), rotating back restores parameters, original untouched; integer translation shifts the box exactly and leaves masks bit-identical',
+         'queries near the boundary (relative 1e-9 lever-arm band) excluded'),
+ 'C16': ('explicit-state search on the implementation (mutation sequences on copies/originals, list mutators) plus a complete single-field perturbation matrix',
+         'equality equals the field-wise model for every perturbation kind, is reflexive/symmetric/never raises; copies equal and share no mutable state under all mutation sequences to depth 2/3; copy(**changes) changes exactly the named field',
+         'field equality of Quantity/SkyCoord values delegated to astropy'),
+ 'C17': ('explicit-state search on the implementation: BFS to closure over assignments/deletes per class, dict and list mutators',
+         'every catalogue value outside the documented domain is rejected with ValueError/TypeError/KeyError at construction and on assignment and leaves the object bit-identical; accepted values read back unchanged; closure => any interleaving length',
+         'annulus ordering on assignment is a known finding (6 classes)'),
+ 'C18': ('bounded-exhaustive lattice enumeration on the implementation with an own path flattener and non-zero winding number',
+         'patch interior equals region membership away from the boundary, annulus hole is a hole (opposite orientation), point/text/line positions, caller kwargs override stored visuals',
+         'guard band 0.5 % of the size for Bezier/flattening error'),
+ 'C19': ('exhaustive enumeration on the implementation: all boxes with corners in [-4,6], all ordered pairs, all triples over a smaller range, all image shapes, 1/8-pixel float lattice',
+         'union/intersection/equality/shape/centre/extent/from_float/overlap slices equal the integer pixel-set model on every enumerated input',
+         'corner magnitudes beyond the stated ranges only through a fixed catalogue of numpy types and magnitudes'),
+ 'C20': ('exhaustive enumeration on the implementation: all 64 x/y shape pairs x dtypes x 47 index expressions x rotations x WCS x origin x mode',
+         'construction/broadcast, indexing, iteration, length, +/-, separation, rotation (isometry, composition, fixed centre), copies and sky round trips equal a numpy-free nested-list reference model',
+         'astropy.wcs trusted for the reference pix2world values'),
+}
+
+for c in checks:
+    t = TEXTS.get(c['property_id'])
+    if t:
+        c['technique'] = t[0]
+        c['level_claimed']['text'] = t[1]
+        c['level_note'] = t[2] + '; numpy, astropy and matplotlib are trusted; compiled kernels are checked as built'
+
 man = {
     'version': 1,
     'setup_cmd': 'true',
